@@ -1,16 +1,16 @@
 #!/bin/bash
 # tools/seedeval.sh <ID> <PROP> [check args...]  : verify a sub-agent's seeded change in its scratch worktree, store it under seeded/, run the check on it
 ID=$1; PROP=$2; shift 2
-W=/tmp/wt/$ID
+W=/tmp/wt/$ID; SID=${SID:-$ID}
 [ -f $W/_seed/patch.diff ] || { echo "no patch"; exit 1; }
 cd $W
 echo "== demo WITH change:"; /venv/bin/python _seed/demo.py >/tmp/wt/$ID.demo_with.txt 2>&1; RC1=$?; tail -3 /tmp/wt/$ID.demo_with.txt | cut -c1-200; echo "rc=$RC1"
 git stash -q; echo "== demo WITHOUT change:"; /venv/bin/python _seed/demo.py >/tmp/wt/$ID.demo_without.txt 2>&1; RC0=$?; tail -2 /tmp/wt/$ID.demo_without.txt | cut -c1-200; echo "rc=$RC0"; git stash pop -q
 echo "== tests WITH change:"; /venv/bin/python -m pytest -q -p no:cacheprovider --timeout=900 2>&1 | tail -1 | tee /tmp/wt/$ID.tests.txt
-mkdir -p /verif/seeded/$ID; git diff -- cdd > /verif/seeded/$ID/patch.diff; cp _seed/demo.py /verif/seeded/$ID/demo.py; cp _seed/notes.txt /verif/seeded/$ID/notes.txt 2>/dev/null
+mkdir -p /verif/seeded/$SID; git diff -- cdd > /verif/seeded/$SID/patch.diff; cp _seed/demo.py /verif/seeded/$SID/demo.py; cp _seed/notes.txt /verif/seeded/$SID/notes.txt 2>/dev/null
 cd /verif
 echo "== check on /repo with the change applied:"
-git -C /repo apply /verif/seeded/$ID/patch.diff || { echo "PATCH DOES NOT APPLY to /repo"; exit 2; }
+git -C /repo apply /verif/seeded/$SID/patch.diff || { echo "PATCH DOES NOT APPLY to /repo"; exit 2; }
 ./check $PROP --no-evidence "$@" 2>/dev/null > /tmp/wt/$ID.check.txt; RC=$?
 git -C /repo checkout -- .
 grep -c " confirmed " /tmp/wt/$ID.check.txt; grep "VIOLATION\|^SUMMARY" /tmp/wt/$ID.check.txt | head -5 | cut -c1-250; grep "counterexample" /tmp/wt/$ID.check.txt | head -3 | cut -c1-300
